@@ -858,6 +858,12 @@ where
                 "Configuration changed"
             );
 
+            // `send_message` relies on `send_buf` having exactly
+            // `max_packet_size` capacity
+            if self.config.max_packet_size != config.max_packet_size {
+                self.send_buf = Vec::with_capacity(config.max_packet_size.get());
+            }
+
             self.config = config;
             Ok(())
         }
